@@ -32,28 +32,32 @@ structure Inv (s : State) : Prop where
   wf : ∀ a ∈ s.heap, a.WF
   vecs : ∀ v ∈ s.vecs, VecOK s.heap s.metas.length v
 
-/-- every live reference of `h` is live in `h'` and still has the same number of columns -/
-@[reducible] def HeapExt (h h' : List Arr) : Prop :=
-  ∀ (r : Nat) (a : Arr), h[r]? = some a → ∃ a', h'[r]? = some a' ∧ a'.ncols = a.ncols
+/-- in-place writes never change an array's shape or dtype kind -/
+@[reducible] def SameShape (a' a : Arr) : Prop := a'.ncols = a.ncols ∧ a'.nrows = a.nrows ∧ a'.isInt = a.isInt
 
-theorem HeapExt.refl (h : List Arr) : HeapExt h h := fun _ a ha => ⟨a, ha, rfl⟩
+/-- every live reference of `h` is live in `h'` and still has the same number of columns, the same
+number of rows and the same dtype kind -/
+@[reducible] def HeapExt (h h' : List Arr) : Prop :=
+  ∀ (r : Nat) (a : Arr), h[r]? = some a → ∃ a', h'[r]? = some a' ∧ SameShape a' a
+
+theorem HeapExt.refl (h : List Arr) : HeapExt h h := fun _ a ha => ⟨a, ha, rfl, rfl, rfl⟩
 
 theorem HeapExt.trans {h1 h2 h3 : List Arr} (a : HeapExt h1 h2) (b : HeapExt h2 h3) : HeapExt h1 h3 := by
   intro r x hx
-  obtain ⟨y, hy, e1⟩ := a r x hx
-  obtain ⟨z, hz, e2⟩ := b r y hy
-  exact ⟨z, hz, e2.trans e1⟩
+  obtain ⟨y, hy, e1, e2, e3⟩ := a r x hx
+  obtain ⟨z, hz, f1, f2, f3⟩ := b r y hy
+  exact ⟨z, hz, f1.trans e1, f2.trans e2, f3.trans e3⟩
 
 theorem HeapExt.append (h l : List Arr) : HeapExt h (h ++ l) := by
   intro r a ha
-  refine ⟨a, ?_, rfl⟩
+  refine ⟨a, ?_, rfl, rfl, rfl⟩
   have hlt : r < h.length := by
     rcases Nat.lt_or_ge r h.length with hlt | hge
     · exact hlt
     · rw [List.getElem?_eq_none hge] at ha; cases ha
   rw [List.getElem?_append_left hlt]; exact ha
 
-theorem HeapExt.set {h : List Arr} {r : Nat} {a a' : Arr} (ha : h[r]? = some a) (hc : a'.ncols = a.ncols) :
+theorem HeapExt.set {h : List Arr} {r : Nat} {a a' : Arr} (ha : h[r]? = some a) (hc : SameShape a' a) :
     HeapExt h (h.set r a') := by
   intro r2 b hb
   by_cases e : r = r2
@@ -65,14 +69,14 @@ theorem HeapExt.set {h : List Arr} {r : Nat} {a a' : Arr} (ha : h[r]? = some a) 
       · exact hlt
       · rw [List.getElem?_eq_none hge] at ha; cases ha
     simp [List.getElem?_set_self hlt]
-  · refine ⟨b, ?_, rfl⟩
+  · refine ⟨b, ?_, rfl, rfl, rfl⟩
     rw [List.getElem?_set_ne e]; exact hb
 
 theorem CellOK.mono {h h' : List Arr} {nf : Nat} {c : Option Ref} (e : HeapExt h h') (hc : CellOK h nf c) :
     CellOK h' nf c := by
   intro r hr
   obtain ⟨a, ha, hn⟩ := hc r hr
-  obtain ⟨a', ha', hn'⟩ := e r a ha
+  obtain ⟨a', ha', hn', _, _⟩ := e r a ha
   exact ⟨a', ha', hn'.trans hn⟩
 
 theorem CellOK.none (h : List Arr) (nf : Nat) : CellOK h nf none := by
@@ -192,6 +196,15 @@ theorem setColRows_length (j : Nat) : ∀ (rows : List (List Rat)) (xs : List Ra
     cases xs with
     | nil => simp [setColRows]
     | cons x xs => simp [setColRows, ih]
+
+theorem Arr.setCol_same (a : Arr) (j : Nat) (xs : List Rat) : SameShape (a.setCol j xs) a :=
+  ⟨rfl, by simp [Arr.setCol, Arr.nrows, setColRows_length], rfl⟩
+
+theorem Arr.mapCol_same (a : Arr) (j : Nat) (f : Rat → Rat) : SameShape (a.mapCol j f) a :=
+  ⟨rfl, by simp [Arr.mapCol, Arr.nrows], rfl⟩
+
+theorem Arr.setRow_same (a : Arr) (k : Nat) (row : List Rat) : SameShape (a.setRow k row) a :=
+  ⟨rfl, by simp [Arr.setRow, Arr.nrows], rfl⟩
 
 theorem Arr.setCol_wf {a : Arr} (h : a.WF) (j : Nat) (xs : List Rat) : (a.setCol j xs).WF := by
   constructor
@@ -796,7 +809,7 @@ theorem inv_setItemLong {s : State} (hI : Inv s) (v : Vec) (idx : List Ix) (val 
               · split
                 · exact hI
                 · exact hI.withHeap (wf_set hI.wf (Arr.setRow_wf (hI.wf a (List.mem_of_getElem? ha)) _ _) r)
-                    (HeapExt.set ha (by simp [Arr.setRow]))
+                    (HeapExt.set ha (Arr.setRow_same _ _ _))
             · split
               · exact hI
               · split
@@ -844,7 +857,7 @@ theorem applyOp_spec (j : Nat) (f : Rat → Rat) : ∀ (cells : List (Option Ref
         have hwf : ∀ x ∈ heap.set r (a.mapCol j f), x.WF :=
           wf_set h (Arr.mapCol_wf (h a (List.mem_of_getElem? ha)) j f) r
         have := ih _ hwf
-        exact ⟨this.1, (HeapExt.set ha (by simp [Arr.mapCol])).trans this.2⟩
+        exact ⟨this.1, (HeapExt.set ha (Arr.mapCol_same _ _ _)).trans this.2⟩
       · exact ih heap h
 
 theorem fill_spec (j : Nat) : ∀ (cells : List (Option Ref)) (heap : List Arr) (xs : List Rat),
@@ -863,7 +876,7 @@ theorem fill_spec (j : Nat) : ∀ (cells : List (Option Ref)) (heap : List Arr) 
         have hwf : ∀ x ∈ heap.set r (a.setCol j (xs.take a.nrows)), x.WF :=
           wf_set h (Arr.setCol_wf (h a (List.mem_of_getElem? ha)) j _) r
         have := ih _ (xs.drop a.nrows) hwf
-        exact ⟨this.1, (HeapExt.set ha (by simp [Arr.setCol])).trans this.2⟩
+        exact ⟨this.1, (HeapExt.set ha (Arr.setCol_same _ _ _)).trans this.2⟩
       · exact ih heap xs h
 
 theorem inv_setFlat {s : State} (hI : Inv s) (v : Vec) (j : Nat) (vals : FlatVal) : Inv (setFlat s v j vals).1 := by
@@ -928,7 +941,7 @@ theorem applyGen_spec (j : Nat) (g : Rat → Rat → Rat) (neg : Bool) (rhs : Rh
             have hwf : ∀ x ∈ heap.set r (a.setCol j (List.zipWith g (a.col j) ys)), x.WF :=
               wf_set h (Arr.setCol_wf (h a (List.mem_of_getElem? ha)) j _) r
             have := ih _ hwf
-            exact ⟨this.1, (HeapExt.set ha (by simp [Arr.setCol])).trans this.2⟩
+            exact ⟨this.1, (HeapExt.set ha (Arr.setCol_same _ _ _)).trans this.2⟩
 
 theorem inv_fieldOpGen {s : State} (hI : Inv s) (vid : Nat) (name : String) (g : Rat → Rat → Rat) (neg : Bool)
     (rhs : Rhs) : Inv (opFieldOpGen s vid name g neg rhs).1 := by
